@@ -7,15 +7,15 @@ open BR.Lru BR.CasBlob
     announced size is known, within `max_proxy_blob_size` and compatible with the request; the
     reported size is the announced one and the bytes are read from exactly what the back end sent
     (raw entries: of exactly the announced length). -/
-theorem fetch_hit_only_if (C : Codec) (d : Disk) (l : Lru) (kind : Kind) (hash : String) (size offset : Int)
+theorem fetchCore_hit_only_if (C : Codec) (d : Disk) (l : Lru) (kind : Kind) (hash : String) (size offset : Int)
     (zstd : Bool) (pg : ProxyGet) (rnd : String) (hit : Hit)
-    (hh : (fetchFromProxy C d l kind hash size offset zstd pg rnd).2 = .hit hit) :
+    (hh : (fetchCore C d l kind hash size offset zstd pg rnd).2 = .hit hit) :
     ∃ s fs, pg = .found s fs ∧ s.fault = false ∧ 0 ≤ fs ∧ fs ≤ d.cfg.maxProxyBlobSize ∧
       isSizeMismatch size fs = false ∧ hit.size = fs ∧
       serveFetched C d.cfg kind s.data fs offset zstd = some hit ∧
       ((kind ≠ .cas ∨ d.cfg.mode = .identity) → (s.data.length : Int) = fs ∧
         hit.data = (if zstd then legacyZstd C (s.data.drop offset.toNat) else s.data.drop offset.toNat)) := by
-  unfold fetchFromProxy at hh
+  unfold fetchCore at hh
   cases pg with
   | error => simp at hh
   | notFound => simp at hh
@@ -66,6 +66,74 @@ theorem fetch_hit_only_if (C : Codec) (d : Disk) (l : Lru) (kind : Kind) (hash :
 
 /-- **faults degrade to a miss or an error, never a hit**: back-end error, not found, a stream that
     fails part-way, an object above `max_proxy_blob_size`, unknown or mismatching size metadata -/
+theorem fetchCore_fault_no_hit (C : Codec) (d : Disk) (l : Lru) (kind : Kind) (hash : String) (size offset : Int)
+    (zstd : Bool) (rnd : String) (s : Stream) (fs : Int) :
+    (fetchCore C d l kind hash size offset zstd .error rnd).2 = .err .e500 ∧
+    (fetchCore C d l kind hash size offset zstd .notFound rnd).2 = .miss ∧
+    (fs > d.cfg.maxProxyBlobSize → (fetchCore C d l kind hash size offset zstd (.found s fs) rnd).2 = .miss) ∧
+    (fs ≤ d.cfg.maxProxyBlobSize → (isSizeMismatch size fs = true ∨ fs < 0) →
+      (fetchCore C d l kind hash size offset zstd (.found s fs) rnd).2 = .miss) ∧
+    (fs ≤ d.cfg.maxProxyBlobSize → isSizeMismatch size fs = false → 0 ≤ fs → s.fault = true →
+      (fetchCore C d l kind hash size offset zstd (.found s fs) rnd).2 = .err .e500) := by
+  refine ⟨rfl, rfl, ?_, ?_, ?_⟩
+  · intro h; unfold fetchCore; simp [h]
+  · intro h1 h2
+    unfold fetchCore
+    have : ¬ fs > d.cfg.maxProxyBlobSize := by omega
+    rcases h2 with h2 | h2 <;> simp [this, h2]
+  · intro h1 h2 h3 h4
+    unfold fetchCore
+    have : ¬ fs > d.cfg.maxProxyBlobSize := by omega
+    have h3' : ¬ fs < 0 := by omega
+    simp [this, h2, h3', h4]
+
+/-- `fetchFromProxy` either is `fetchCore` on the same index, or (size unknown, acceptable announced
+    size) a refused reservation, or `fetchCore` with the announced size reserved -/
+theorem fetchFromProxy_cases (C : Codec) (d : Disk) (l : Lru) (kind : Kind) (hash : String) (size offset : Int)
+    (zstd : Bool) (pg : ProxyGet) (rnd : String) :
+    fetchFromProxy C d l kind hash size offset zstd pg rnd = fetchCore C d l kind hash size offset zstd pg rnd ∨
+    ∃ s fs, pg = .found s fs ∧ size ≤ 0 ∧ fs > 0 ∧ fs ≤ d.cfg.maxProxyBlobSize ∧ isSizeMismatch size fs = false ∧
+      ((∃ e, (reserve l fs).2 = some e ∧
+          fetchFromProxy C d l kind hash size offset zstd pg rnd = ({ d with lru := (reserve l fs).1 }, .err (codeOfErr e))) ∨
+       ((reserve l fs).2 = none ∧
+          fetchFromProxy C d l kind hash size offset zstd pg rnd = fetchCore C d (reserve l fs).1 kind hash fs offset zstd pg rnd)) := by
+  unfold fetchFromProxy
+  cases pg with
+  | error => exact Or.inl rfl
+  | notFound => exact Or.inl rfl
+  | found s fs =>
+    simp only
+    split
+    · rename_i hc
+      refine Or.inr ⟨s, fs, rfl, hc.1, hc.2.1, hc.2.2.1, hc.2.2.2, ?_⟩
+      cases hr : reserve l fs with
+      | mk lr rerr =>
+        cases rerr with
+        | some e => exact Or.inl ⟨e, rfl, rfl⟩
+        | none => exact Or.inr ⟨rfl, rfl⟩
+    · exact Or.inl rfl
+
+theorem fetch_hit_only_if (C : Codec) (d : Disk) (l : Lru) (kind : Kind) (hash : String) (size offset : Int)
+    (zstd : Bool) (pg : ProxyGet) (rnd : String) (hit : Hit)
+    (hh : (fetchFromProxy C d l kind hash size offset zstd pg rnd).2 = .hit hit) :
+    ∃ s fs, pg = .found s fs ∧ s.fault = false ∧ 0 ≤ fs ∧ fs ≤ d.cfg.maxProxyBlobSize ∧
+      isSizeMismatch size fs = false ∧ hit.size = fs ∧
+      serveFetched C d.cfg kind s.data fs offset zstd = some hit ∧
+      ((kind ≠ .cas ∨ d.cfg.mode = .identity) → (s.data.length : Int) = fs ∧
+        hit.data = (if zstd then legacyZstd C (s.data.drop offset.toNat) else s.data.drop offset.toNat)) := by
+  rcases fetchFromProxy_cases C d l kind hash size offset zstd pg rnd with he | ⟨s, fs, hpg, _, _, _, hmm, hr⟩
+  · rw [he] at hh
+    exact fetchCore_hit_only_if C d l kind hash size offset zstd pg rnd hit hh
+  · rcases hr with ⟨e, _, he⟩ | ⟨_, he⟩
+    · rw [he] at hh; simp at hh
+    · rw [he] at hh
+      obtain ⟨s', fs', hpg', h1, h2, h3, _, h5, h6, h7⟩ := fetchCore_hit_only_if C d _ kind hash fs offset zstd pg rnd hit hh
+      rw [hpg] at hpg'
+      cases hpg'
+      exact ⟨s, fs, hpg, h1, h2, h3, hmm, h5, h6, h7⟩
+
+/-- **faults degrade to a miss or an error, never a hit** (for a request of unknown size the error
+    may also be the refusal of the late reservation) -/
 theorem fetch_fault_no_hit (C : Codec) (d : Disk) (l : Lru) (kind : Kind) (hash : String) (size offset : Int)
     (zstd : Bool) (rnd : String) (s : Stream) (fs : Int) :
     (fetchFromProxy C d l kind hash size offset zstd .error rnd).2 = .err .e500 ∧
@@ -74,18 +142,32 @@ theorem fetch_fault_no_hit (C : Codec) (d : Disk) (l : Lru) (kind : Kind) (hash 
     (fs ≤ d.cfg.maxProxyBlobSize → (isSizeMismatch size fs = true ∨ fs < 0) →
       (fetchFromProxy C d l kind hash size offset zstd (.found s fs) rnd).2 = .miss) ∧
     (fs ≤ d.cfg.maxProxyBlobSize → isSizeMismatch size fs = false → 0 ≤ fs → s.fault = true →
-      (fetchFromProxy C d l kind hash size offset zstd (.found s fs) rnd).2 = .err .e500) := by
-  refine ⟨rfl, rfl, ?_, ?_, ?_⟩
-  · intro h; unfold fetchFromProxy; simp [h]
+      ∃ c, (fetchFromProxy C d l kind hash size offset zstd (.found s fs) rnd).2 = .err c) := by
+  obtain ⟨c1, c2, c3, c4, c5⟩ := fetchCore_fault_no_hit C d l kind hash size offset zstd rnd s fs
+  refine ⟨c1, c2, ?_, ?_, ?_⟩
+  · intro h
+    have : fetchFromProxy C d l kind hash size offset zstd (.found s fs) rnd = fetchCore C d l kind hash size offset zstd (.found s fs) rnd := by
+      unfold fetchFromProxy
+      have hn : ¬ fs ≤ d.cfg.maxProxyBlobSize := by omega
+      simp [hn]
+    rw [this]; exact c3 h
   · intro h1 h2
-    unfold fetchFromProxy
-    have : ¬ fs > d.cfg.maxProxyBlobSize := by omega
-    rcases h2 with h2 | h2 <;> simp [this, h2]
+    have : fetchFromProxy C d l kind hash size offset zstd (.found s fs) rnd = fetchCore C d l kind hash size offset zstd (.found s fs) rnd := by
+      unfold fetchFromProxy
+      rcases h2 with h2 | h2
+      · simp [h2]
+      · have hn : ¬ fs > 0 := by omega
+        simp [hn]
+    rw [this]; exact c4 h1 h2
   · intro h1 h2 h3 h4
-    unfold fetchFromProxy
-    have : ¬ fs > d.cfg.maxProxyBlobSize := by omega
-    have h3' : ¬ fs < 0 := by omega
-    simp [this, h2, h3', h4]
+    rcases fetchFromProxy_cases C d l kind hash size offset zstd (.found s fs) rnd with he | ⟨s', fs', hpg, _, hpos, _, _, hr⟩
+    · rw [he]; exact ⟨_, c5 h1 h2 h3 h4⟩
+    · cases hpg
+      rcases hr with ⟨e, _, he⟩ | ⟨_, he⟩
+      · rw [he]; exact ⟨_, rfl⟩
+      · rw [he]
+        have hm : isSizeMismatch fs fs = false := by simp [isSizeMismatch]
+        exact ⟨_, (fetchCore_fault_no_hit C d _ kind hash fs offset zstd rnd s fs).2.2.2.2 h1 hm h3 h4⟩
 
 /-- nothing larger than `max_proxy_blob_size` is requested from the back end: for such a request
     the back end's answer is irrelevant -/
